@@ -11,11 +11,14 @@ def apply_edit(b, edit):
         return
     x, x0 = b.held["x"], b.held["x0"]
     if edit == "init":           # replace the initial condition by a looser one
+        old = pep.list_of_constraints[0]
         if "xs" in b.held:
             pep.list_of_constraints[0] = ((x0 - b.held["xs"]) ** 2 <= 4)
         else:
-            old = pep.list_of_constraints[0]
             pep.list_of_constraints[0] = (old.expression + 1 <= 4)      # same left-hand side, bound 4 instead of 1
+        # the user withdrew `old` and declared the new condition in its place
+        b.user_decl[:] = [("sc", pep.list_of_constraints[0], None) if (k == "sc" and o is old) else (k, o, w)
+                          for (k, o, w) in b.user_decl]
     elif edit == "metric":
         m = b.held["m1"] / 2 + 0
         pep.set_performance_metric(m)
@@ -44,6 +47,7 @@ def apply_edit(b, edit):
         b.held["c_infeasible"] = c
     elif edit == "feasible-again":
         pep.list_of_constraints.remove(b.held["c_infeasible"])
+        b.user_decl[:] = [(k, o, w) for (k, o, w) in b.user_decl if o is not b.held["c_infeasible"]]
     else:
         raise KeyError(edit)
 
